@@ -22,6 +22,8 @@ XmlKnobs draw_knobs(Rng& rng)
     k.empty_elems = rng.chance(0.3);
     k.pad_text = rng.chance(0.3);
     k.crlf = rng.chance(0.15);
+    // the labels of a location may come in either order (since the fix of F-C04-3 an ordinary serialisation choice)
+    k.rate_before_invariant = rng.chance(0.25);
     return k;
 }
 
